@@ -3,15 +3,18 @@
 // Harness for C18 "values passed between workflow components are isolated copies".
 //
 // One seeded scenario per run, drawn from: the duty store, the aggregate-signature store (both
-// implementations), the partial-signature store with its two kinds of subscribers, and the
-// subscriber fan-out of sigagg, fetcher and validatorapi. In every scenario a deterministic value is
-// handed to the component; readers / subscribers run as separate goroutines under the seeded
-// scheduler with chooser-drawn delays; one class of party per run (the party that handed the value
-// in, or the receivers) overwrites IN PLACE everything reachable from its object (reflection walk,
-// walk_test.go). Oracles: every value ever received has the canonical content of the original, a
-// value that a receiver only holds never changes, a fresh identical re-store is still accepted, and
-// no two received values (nor a received value and the object handed in) reach the same mutable
-// memory.
+// implementations), the partial-signature store with its two kinds of subscribers, the subscriber
+// fan-out of sigagg, fetcher, validatorapi, scheduler (duty and slot subscribers, head-event early
+// fetch), parsigex and consensus (parsigex_test.go, consensus_test.go), and the store-backed
+// endpoints of validatorapi (vapi_test.go). In every scenario a deterministic value is handed to the
+// component; readers / subscribers run as separate goroutines under the seeded scheduler with
+// chooser-drawn delays; one class of party per run (the party that handed the value in, or the
+// receivers) overwrites IN PLACE everything reachable from its object (reflection walk,
+// walk_test.go). In a quarter of the store runs the duty expires (real core.Deadliner on the bubble
+// clock) while the receivers hold their values. Oracles: every value ever received has the canonical
+// content of the original, a value that a receiver only holds never changes (also not when the store
+// deletes or re-uses the expired entry), a fresh identical re-store is still accepted, and no two
+// received values (nor a received value and the object handed in) reach the same mutable memory.
 package c18
 
 import (
@@ -34,6 +37,7 @@ import (
 	"go.uber.org/zap"
 
 	"github.com/obolnetwork/charon/app/eth2wrap"
+	"github.com/obolnetwork/charon/app/featureset"
 	"github.com/obolnetwork/charon/app/log"
 	"github.com/obolnetwork/charon/core"
 	"github.com/obolnetwork/charon/core/aggsigdb"
@@ -75,6 +79,8 @@ type run struct {
 	reported map[string]bool
 	nviol    int
 	nmut     int
+	expire   bool // expiry run: the duty under test has a deadline of one simulated second (stores only)
+	expired  bool // the deadline has passed and the store has been given the occasion to delete its entry
 }
 
 // handed is an object given to the component by a caller (kept alive for the whole run).
@@ -231,13 +237,18 @@ func (o *obs) scramble() {
 // recheck: a value that its receiver has only held must not change.
 func (o *obs) recheck(when string) {
 	o.r.mu.Lock()
-	scr := o.scrambled
+	scr, expired := o.scrambled, o.r.expired
 	o.r.mu.Unlock()
 	if scr {
 		return
 	}
 	// compared with what was received (a value that was already wrong then has been reported then)
 	if now := canon(o.val); !bytes.Equal(now, o.got) {
+		if expired {
+			o.r.violate("mutation-visible", o.r.sig(o.api, "held-changed-after-expiry", o.typ),
+				"the %s that %s received via %s/%s and never modified has changed since (%s): the duty has expired and %s has deleted / re-used its entry (in-place overwrites in this run: %d, by the %s of its own object): %s", o.typ, o.who, o.r.comp, o.api, when, o.r.comp, o.r.nmut, o.r.mutator(), diffLeaves(leavesOf(o.ref), leavesOf(o.val)))
+			return
+		}
 		o.r.violate("mutation-visible", o.r.sig(o.api, "held-changed-by-"+o.r.mutator()+"s-mutation", o.typ),
 			"the %s that %s received via %s/%s and never modified has changed since (%s) after in-place overwrites by the %s of its own object: %s", o.typ, o.who, o.r.comp, o.api, when, o.r.mutator(), diffLeaves(leavesOf(o.ref), leavesOf(o.val)))
 	}
@@ -269,9 +280,13 @@ func (r *run) receive(wg *sync.WaitGroup, who, api string, val any, exp []byte, 
 func (r *run) finish() {
 	r.mu.Lock()
 	os := append([]*obs(nil), r.obs...)
+	when := "at quiescence"
+	if r.expired {
+		when = "at quiescence, after the expiry of the duty"
+	}
 	r.mu.Unlock()
 	for _, o := range os {
-		o.recheck("at quiescence")
+		o.recheck(when)
 	}
 	r.c.Set("received", len(os))
 	r.c.Set("mutations", r.nmut)
@@ -333,9 +348,21 @@ type readAPI struct {
 	ref any
 }
 
+// datum is one value of a store scenario: how to build it, how to store it, how to query it.
+type datum struct {
+	fresh func() any
+	store func(context.Context, any) error
+	reads []readAPI
+}
+
 // runStore drives one store: a writer hands in fresh() (and, in writer-mutates runs, overwrites it
 // after the call has returned), 2-3 readers query 1-2 times each with delays around the store.
-func (r *run) runStore(ctx context.Context, wg *sync.WaitGroup, fresh func() any, store func(context.Context, any) error, reads []readAPI) {
+// In an expiry run (r.expire, see storeDeadliner) the duty expires one simulated second later, while the
+// readers still hold what they received: the writer of `second` then stores another datum (which
+// gives the store the occasion to delete / re-use the expired entry), it is read back, and every
+// held value is re-checked.
+func (r *run) runStore(ctx context.Context, wg *sync.WaitGroup, first datum, second *datum) {
+	fresh, store, reads := first.fresh, first.store, first.reads
 	nReaders := 2 + verifrt.Intn("cfg", 2)
 	stored := false
 	wg.Add(1)
@@ -378,9 +405,62 @@ func (r *run) runStore(ctx context.Context, wg *sync.WaitGroup, fresh func() any
 		})
 	}
 	// Quiescence: all delays are a few milliseconds; after this sleep everything that was going to
-	// happen has happened.
+	// happen has happened (in an expiry run: including the deadline of the duty, one second in).
 	verifrt.Sleep(2 * time.Second)
 	if !stored {
+		return
+	}
+	if r.expire && second != nil {
+		r.mu.Lock()
+		r.expired = true
+		r.mu.Unlock()
+		cover(r.comp, "expiry")
+		// Is the expired entry still served? Either answer is fine for C18 (counted, not judged); a
+		// value served after the deadline is one more received value.
+		served := func(who string) bool {
+			qctx, cancel := context.WithTimeout(ctx, 10*time.Millisecond)
+			defer cancel()
+			v, err := reads[0].f(qctx)
+			if err == nil {
+				r.observe(who, reads[0].api, v, reads[0].exp, reads[0].ref)
+			}
+			return err == nil
+		}
+		atDeadline := served("post-deadline-reader")
+		if atDeadline {
+			verifrt.Probe("expiry:" + r.comp + ":entry-served-after-deadline")
+		} else {
+			verifrt.Probe("expiry:" + r.comp + ":entry-deleted-at-deadline")
+		}
+		v := second.fresh()
+		h := r.hand("second-writer", v)
+		verifrt.Note("the duty has expired; second writer stores another datum")
+		if err := second.store(ctx, v); err != nil {
+			r.unexpected("store", err)
+			return
+		}
+		if r.byWriter {
+			h.scramble()
+		}
+		if atDeadline {
+			if served("post-deadline-reader") {
+				verifrt.Probe("expiry:" + r.comp + ":entry-served-after-next-store")
+			} else {
+				verifrt.Probe("expiry:" + r.comp + ":entry-deleted-by-next-store")
+			}
+		}
+		for i, ra := range second.reads {
+			qctx, cancel := context.WithTimeout(ctx, 10*time.Millisecond)
+			v, err := ra.f(qctx)
+			cancel()
+			if err != nil {
+				r.unexpected(ra.api, err)
+				return
+			}
+			r.receive(wg, fmt.Sprintf("post-expiry-reader%d", i), ra.api, v, ra.exp, ra.ref)
+		}
+		verifrt.Sleep(10 * time.Millisecond) // delayed overwrites of the post-expiry readers
+		r.finish()
 		return
 	}
 	// a later query still observes the original
@@ -410,106 +490,132 @@ func farDeadliner(ctx context.Context) core.Deadliner {
 	return core.NewDeadliner(ctx, "c18", func(core.Duty) (time.Time, bool) { return start.Add(time.Hour), true })
 }
 
+// storeDeadliner is the real core.Deadliner on the bubble clock. One run in four is an expiry run:
+// duties of `slot` then expire one simulated second after the start of the run (every operation of
+// the workload happens within the first few milliseconds, the receivers hold their values across the
+// deadline); all other duties never expire within a run.
+func (r *run) storeDeadliner(ctx context.Context, slot uint64) core.Deadliner {
+	r.expire = verifrt.Intn("cfg", 4) == 3
+	r.c.Set("expiry", r.expire)
+	start, expire := time.Now(), r.expire
+	return core.NewDeadliner(ctx, "c18", func(d core.Duty) (time.Time, bool) {
+		if expire && d.Slot == slot {
+			return start.Add(time.Second), true
+		}
+		return start.Add(time.Hour), true
+	})
+}
+
 func scenDutyDB(r *run, ctx context.Context, wg *sync.WaitGroup) {
 	r.comp = "dutydb"
-	db := dutydb.NewMemDB(farDeadliner(ctx))
 	const slot = 64
+	db := dutydb.NewMemDB(r.storeDeadliner(ctx, slot))
 	seed := uint64(1 + verifrt.Intn("cfg", 3))
-	var (
-		duty  core.Duty
-		fresh func() any
-		reads []readAPI
-	)
+	// build(slot, seed) is the datum of the drawn kind for a slot: the duty under test, and in expiry
+	// runs the datum of a later slot whose Store makes the duty store delete the expired one.
+	var build func(slot, seed uint64) datum
+	mk := func(duty core.Duty, fresh func() any, reads []readAPI) datum {
+		return datum{fresh: fresh, reads: reads, store: func(ctx context.Context, v any) error { return db.Store(ctx, duty, v.(core.UnsignedDataSet)) }}
+	}
 	switch verifrt.Intn("cfg", 4) {
 	case 0: // attester: one datum per committee, also served under the committee-index-0 alias
 		comm := uint64(1 + verifrt.Intn("cfg", 2))
 		nv := 1 + verifrt.Intn("cfg", 2)
-		duty = core.NewAttesterDuty(slot)
-		fresh = func() any {
-			s := core.UnsignedDataSet{}
-			for i := 0; i < nv; i++ {
-				s[simdata.PubKey(i)] = mkUnsignedAtt(slot, comm, i, seed)
-			}
-			return s
-		}
-		ref := mkAttData(slot, 0, seed)
-		for _, ci := range []uint64{comm, 0} {
-			reads = append(reads, readAPI{"await-att", func(ctx context.Context) (any, error) {
-				v, err := db.AwaitAttestation(ctx, slot, ci)
-				if err != nil {
-					return nil, err
+		build = func(slot, seed uint64) datum {
+			fresh := func() any {
+				s := core.UnsignedDataSet{}
+				for i := 0; i < nv; i++ {
+					s[simdata.PubKey(i)] = mkUnsignedAtt(slot, comm, i, seed)
 				}
-				return v, nil
-			}, canon(ref), ref})
+				return s
+			}
+			ref := mkAttData(slot, 0, seed)
+			var reads []readAPI
+			for _, ci := range []uint64{comm, 0} {
+				reads = append(reads, readAPI{"await-att", func(ctx context.Context) (any, error) {
+					v, err := db.AwaitAttestation(ctx, slot, ci)
+					if err != nil {
+						return nil, err
+					}
+					return v, nil
+				}, canon(ref), ref})
+			}
+			return mk(core.NewAttesterDuty(slot), fresh, reads)
 		}
 		cover(r.comp, "AttestationData")
 	case 1: // proposer
 		f := proposalForks[verifrt.Intn("cfg", len(proposalForks))]
-		duty = core.NewProposerDuty(slot)
-		fresh = func() any { return core.UnsignedDataSet{simdata.PubKey(0): mkUnsignedProposal(f, slot, seed)} }
-		ref := mkProposal(f, slot, seed)
-		reads = append(reads, readAPI{"await-proposal", func(ctx context.Context) (any, error) {
-			v, err := db.AwaitProposal(ctx, slot)
-			if err != nil {
-				return nil, err
-			}
-			return v, nil
-		}, canon(ref), ref})
-		cover(r.comp, "VersionedProposal/"+f.String())
-	case 2: // aggregator
-		f := attForks[verifrt.Intn("cfg", len(attForks))]
-		comm := uint64(1 + verifrt.Intn("cfg", 2))
-		duty = core.NewAggregatorDuty(slot)
-		fresh = func() any { return core.UnsignedDataSet{simdata.PubKey(0): mkUnsignedAgg(f, slot, comm, seed)} }
-		refAgg := mkUnsignedAgg(f, slot, comm, seed)
-		ref := &refAgg.VersionedAttestation
-		data, err := refAgg.Data()
-		if err != nil {
-			panic(err)
-		}
-		root := must(data.HashTreeRoot())
-		reads = append(reads, readAPI{"await-agg-att", func(ctx context.Context) (any, error) {
-			v, err := db.AwaitAggAttestation(ctx, slot, root, eth2p0.CommitteeIndex(comm))
-			if err != nil {
-				return nil, err
-			}
-			return v, nil
-		}, canon(ref), ref})
-		cover(r.comp, "VersionedAggregatedAttestation/"+f.String())
-	default: // sync contribution, single or plural
-		plural := verifrt.Intn("cfg", 2) == 1
-		duty = core.NewSyncContributionDuty(slot)
-		subs := []uint64{1}
-		if plural {
-			subs = []uint64{1, 2}
-		}
-		fresh = func() any {
-			if !plural {
-				return core.UnsignedDataSet{simdata.PubKey(0): core.NewSyncContribution(mkContribution(slot, 1, seed))}
-			}
-			var cs core.SyncContributions
-			for _, sc := range subs {
-				cs = append(cs, core.NewSyncContribution(mkContribution(slot, sc, seed+sc)))
-			}
-			return core.UnsignedDataSet{simdata.PubKey(0): cs}
-		}
-		for _, sc := range subs {
-			sd := seed
-			if plural {
-				sd = seed + sc
-			}
-			ref := mkContribution(slot, sc, sd)
-			reads = append(reads, readAPI{"await-contrib", func(ctx context.Context) (any, error) {
-				v, err := db.AwaitSyncContribution(ctx, slot, sc, ref.BeaconBlockRoot)
+		build = func(slot, seed uint64) datum {
+			fresh := func() any { return core.UnsignedDataSet{simdata.PubKey(0): mkUnsignedProposal(f, slot, seed)} }
+			ref := mkProposal(f, slot, seed)
+			return mk(core.NewProposerDuty(slot), fresh, []readAPI{{"await-proposal", func(ctx context.Context) (any, error) {
+				v, err := db.AwaitProposal(ctx, slot)
 				if err != nil {
 					return nil, err
 				}
 				return v, nil
-			}, canon(ref), ref})
+			}, canon(ref), ref}})
+		}
+		cover(r.comp, "VersionedProposal/"+f.String())
+	case 2: // aggregator
+		f := attForks[verifrt.Intn("cfg", len(attForks))]
+		comm := uint64(1 + verifrt.Intn("cfg", 2))
+		build = func(slot, seed uint64) datum {
+			fresh := func() any { return core.UnsignedDataSet{simdata.PubKey(0): mkUnsignedAgg(f, slot, comm, seed)} }
+			refAgg := mkUnsignedAgg(f, slot, comm, seed)
+			ref := &refAgg.VersionedAttestation
+			root := must(must(refAgg.Data()).HashTreeRoot())
+			return mk(core.NewAggregatorDuty(slot), fresh, []readAPI{{"await-agg-att", func(ctx context.Context) (any, error) {
+				v, err := db.AwaitAggAttestation(ctx, slot, root, eth2p0.CommitteeIndex(comm))
+				if err != nil {
+					return nil, err
+				}
+				return v, nil
+			}, canon(ref), ref}})
+		}
+		cover(r.comp, "VersionedAggregatedAttestation/"+f.String())
+	default: // sync contribution, single or plural
+		plural := verifrt.Intn("cfg", 2) == 1
+		subs := []uint64{1}
+		if plural {
+			subs = []uint64{1, 2}
+		}
+		build = func(slot, seed uint64) datum {
+			fresh := func() any {
+				if !plural {
+					return core.UnsignedDataSet{simdata.PubKey(0): core.NewSyncContribution(mkContribution(slot, 1, seed))}
+				}
+				var cs core.SyncContributions
+				for _, sc := range subs {
+					cs = append(cs, core.NewSyncContribution(mkContribution(slot, sc, seed+sc)))
+				}
+				return core.UnsignedDataSet{simdata.PubKey(0): cs}
+			}
+			var reads []readAPI
+			for _, sc := range subs {
+				sd := seed
+				if plural {
+					sd = seed + sc
+				}
+				ref := mkContribution(slot, sc, sd)
+				reads = append(reads, readAPI{"await-contrib", func(ctx context.Context) (any, error) {
+					v, err := db.AwaitSyncContribution(ctx, slot, sc, ref.BeaconBlockRoot)
+					if err != nil {
+						return nil, err
+					}
+					return v, nil
+				}, canon(ref), ref})
+			}
+			return mk(core.NewSyncContributionDuty(slot), fresh, reads)
 		}
 		cover(r.comp, map[bool]string{false: "SyncContribution", true: "SyncContributions"}[plural])
 	}
-	r.runStore(ctx, wg, fresh, func(ctx context.Context, v any) error { return db.Store(ctx, duty, v.(core.UnsignedDataSet)) }, reads)
+	var second *datum
+	if r.expire { // a later slot: MemDB.Store is where the duty store deletes expired duties
+		d := build(slot+32, seed+7)
+		second = &d
+	}
+	r.runStore(ctx, wg, build(slot, seed), second)
 }
 
 type aggDB interface {
@@ -519,40 +625,50 @@ type aggDB interface {
 }
 
 func scenAggSigDB(r *run, ctx context.Context, wg *sync.WaitGroup, v2 bool) {
+	const slot = 96
 	var db aggDB
 	if v2 {
 		r.comp = "aggsigdb.MemDBV2"
-		db = aggsigdb.NewMemDBV2(farDeadliner(ctx))
+		db = aggsigdb.NewMemDBV2(r.storeDeadliner(ctx, slot))
 	} else {
 		r.comp = "aggsigdb.MemDB"
-		db = aggsigdb.NewMemDB(farDeadliner(ctx))
+		db = aggsigdb.NewMemDB(r.storeDeadliner(ctx, slot))
 	}
 	verifrt.Go(func() { db.Run(ctx) })
 	k, variant := pickKind(func(n int) int { return verifrt.Intn("cfg", n) })
-	const slot = 96
 	seed := uint64(1 + verifrt.Intn("cfg", 3))
 	nv := 1 + verifrt.Intn("cfg", 2)
 	duty := core.Duty{Slot: slot, Type: k.duty}
-	fresh := func() any {
-		s := core.SignedDataSet{}
-		for i := 0; i < nv; i++ {
-			s[simdata.PubKey(i)] = k.mk(variant, slot, seed+uint64(i))
-		}
-		return s
-	}
-	var reads []readAPI
-	for i := 0; i < nv; i++ {
-		ref := k.mk(variant, slot, seed+uint64(i))
-		reads = append(reads, readAPI{"await", func(ctx context.Context) (any, error) {
-			v, err := db.Await(ctx, duty, simdata.PubKey(i), subcommOf(k.duty))
-			if err != nil {
-				return nil, err
+	build := func(seed uint64) datum {
+		fresh := func() any {
+			s := core.SignedDataSet{}
+			for i := 0; i < nv; i++ {
+				s[simdata.PubKey(i)] = k.mk(variant, slot, seed+uint64(i))
 			}
-			return v, nil
-		}, canon(ref), ref})
+			return s
+		}
+		var reads []readAPI
+		for i := 0; i < nv; i++ {
+			ref := k.mk(variant, slot, seed+uint64(i))
+			reads = append(reads, readAPI{"await", func(ctx context.Context) (any, error) {
+				v, err := db.Await(ctx, duty, simdata.PubKey(i), subcommOf(k.duty))
+				if err != nil {
+					return nil, err
+				}
+				return v, nil
+			}, canon(ref), ref})
+		}
+		return datum{fresh: fresh, reads: reads, store: func(ctx context.Context, v any) error { return db.Store(ctx, duty, v.(core.SignedDataSet)) }}
 	}
 	cover(r.comp, k.label(variant))
-	r.runStore(ctx, wg, fresh, func(ctx context.Context, v any) error { return db.Store(ctx, duty, v.(core.SignedDataSet)) }, reads)
+	var second *datum
+	if r.expire {
+		// the same keys with other content: both implementations delete the expired entries in Run
+		// and accept a store for the same duty afterwards (the entry is re-used)
+		d := build(seed + 7)
+		second = &d
+	}
+	r.runStore(ctx, wg, build(seed), second)
 }
 
 // ---- family B: subscriber fan-out ---------------------------------------------------------------------
@@ -562,21 +678,26 @@ type shareKey struct{}
 func scenParSigDB(r *run, ctx context.Context, wg *sync.WaitGroup) {
 	r.comp = "parsigdb"
 	const threshold = 2
-	db := parsigdb.NewMemDB(threshold, farDeadliner(ctx), parsigdb.NewMemDBMetadata(12, time.Now()))
+	const slot = 128
+	db := parsigdb.NewMemDB(threshold, r.storeDeadliner(ctx, slot), parsigdb.NewMemDBMetadata(12, time.Now()))
 	verifrt.Go(func() { db.Trim(ctx) })
 	k, variant := pickKind(func(n int) int { return verifrt.Intn("cfg", n) })
-	const slot = 128
 	seed := uint64(1 + verifrt.Intn("cfg", 3))
 	nv := 1 + verifrt.Intn("cfg", 2)
 	duty := core.Duty{Slot: slot, Type: k.duty}
-	mkPartial := func(pk, share int) core.ParSignedData {
-		sd := must(k.mk(variant, slot, seed+uint64(pk)).SetSignature(core.SigFromETH2(simdata.Sig(uint64(share*10 + pk)))))
-		return core.ParSignedData{SignedData: sd, ShareIdx: share}
+	duty2 := core.Duty{Slot: slot + 32, Type: k.duty} // expiry runs: stored after the first duty has expired and been trimmed
+	mkPartial := func(d core.Duty, pk, share int) core.ParSignedData {
+		sd := seed
+		if d != duty {
+			sd = seed + 7
+		}
+		x := must(k.mk(variant, d.Slot, sd+uint64(pk)).SetSignature(core.SigFromETH2(simdata.Sig(uint64(share*10 + pk)))))
+		return core.ParSignedData{SignedData: x, ShareIdx: share}
 	}
-	mkSet := func(share int) core.ParSignedDataSet {
+	mkSet := func(d core.Duty, share int) core.ParSignedDataSet {
 		s := core.ParSignedDataSet{}
 		for pk := 0; pk < nv; pk++ {
-			s[simdata.PubKey(pk)] = mkPartial(pk, share)
+			s[simdata.PubKey(pk)] = mkPartial(d, pk, share)
 		}
 		return s
 	}
@@ -587,28 +708,32 @@ func scenParSigDB(r *run, ctx context.Context, wg *sync.WaitGroup) {
 	cover(r.comp, k.label(variant))
 
 	var mu sync.Mutex
-	triggers := 0
+	triggers, triggers2 := 0, 0
 	for si := 0; si < 2; si++ {
-		db.SubscribeThreshold(func(_ context.Context, _ core.Duty, m map[core.PubKey][]core.ParSignedData) error {
+		db.SubscribeThreshold(func(_ context.Context, d core.Duty, m map[core.PubKey][]core.ParSignedData) error {
 			ref := map[core.PubKey][]core.ParSignedData{}
 			for pk, ps := range m {
 				for _, p := range ps {
 					var e core.ParSignedData
 					if i, ok := pkIdx[pk]; ok && p.ShareIdx >= 1 && p.ShareIdx <= 3 {
-						e = mkPartial(i, p.ShareIdx)
+						e = mkPartial(d, i, p.ShareIdx)
 					}
 					ref[pk] = append(ref[pk], e)
 				}
 			}
 			mu.Lock()
-			triggers++
+			if d == duty {
+				triggers++
+			} else {
+				triggers2++
+			}
 			mu.Unlock()
 			r.receive(wg, fmt.Sprintf("threshold-subscriber%d", si), "thresh-sub", m, canon(ref), ref)
 			return nil
 		})
-		db.SubscribeInternal(func(ctx context.Context, _ core.Duty, set core.ParSignedDataSet) error {
+		db.SubscribeInternal(func(ctx context.Context, d core.Duty, set core.ParSignedDataSet) error {
 			share, _ := ctx.Value(shareKey{}).(int)
-			ref := mkSet(share)
+			ref := mkSet(d, share)
 			r.receive(wg, fmt.Sprintf("internal-subscriber%d", si), "internal-sub", set, canon(ref), ref)
 			return nil
 		})
@@ -626,7 +751,7 @@ func scenParSigDB(r *run, ctx context.Context, wg *sync.WaitGroup) {
 		verifrt.Go(func() {
 			defer wg.Done()
 			pause("w", 4)
-			set := mkSet(sh)
+			set := mkSet(duty, sh)
 			h := r.hand(fmt.Sprintf("share%d-writer", sh), set)
 			internal := verifrt.Intn("w", 2) == 0
 			cctx := context.WithValue(ctx, shareKey{}, sh)
@@ -651,6 +776,30 @@ func scenParSigDB(r *run, ctx context.Context, wg *sync.WaitGroup) {
 		})
 	}
 	verifrt.Sleep(2 * time.Second)
+	if r.expire {
+		// The duty expired one second in: Trim has deleted its entries while the subscribers hold
+		// what they received. Another duty is stored now (its entries may re-use that memory).
+		r.mu.Lock()
+		r.expired = true
+		r.mu.Unlock()
+		cover(r.comp, "expiry")
+		for _, sh := range shares[:2] {
+			set := mkSet(duty2, sh)
+			h := r.hand(fmt.Sprintf("share%d-second-writer", sh), set)
+			verifrt.Note("the duty has expired; share %d stores a partial of a later duty", sh)
+			if err := db.StoreInternal(context.WithValue(ctx, shareKey{}, sh), duty2, set); err != nil {
+				r.unexpected("store", err)
+				return
+			}
+			if r.byWriter {
+				h.scramble()
+			}
+		}
+		if triggers2 > 0 {
+			verifrt.Probe("expiry:parsigdb:threshold-of-later-duty-reached")
+		}
+		verifrt.Sleep(10 * time.Millisecond) // delayed overwrites of the subscribers of the later duty
+	}
 	r.finish()
 	if r.failed() || stored < threshold {
 		return
@@ -662,9 +811,12 @@ func scenParSigDB(r *run, ctx context.Context, wg *sync.WaitGroup) {
 			"%d shares stored matching partials (threshold %d) but no threshold subscriber was called after %d in-place overwrite(s) by the %s: the stored partials no longer match", stored, threshold, r.nmut, r.mutator())
 		return
 	}
+	if r.expire {
+		return // partials of an expired duty are dropped: nothing to re-store
+	}
 	// the stored partials are unchanged: an identical re-store is a duplicate, not a mismatch
 	for _, sh := range shares {
-		set := mkSet(sh)
+		set := mkSet(duty, sh)
 		r.hand("second-writer", set)
 		if err := db.StoreExternal(ctx, duty, set); err != nil {
 			r.violate("mutation-visible", r.sig("store", "restore-rejected-after-"+r.mutator()+"s-mutation", "core.ParSignedData<core."+k.name+">"),
@@ -1151,6 +1303,46 @@ func scenScheduler(r *run, ctx context.Context, wg *sync.WaitGroup) {
 		s.SubscribeDuties(func(_ context.Context, duty core.Duty, set core.DutyDefinitionSet) error {
 			got(fmt.Sprintf("duty-subscriber%d", si), "duty-sub", duty, set)
 			return nil
+		})
+		// slot subscribers get a core.Slot by value (no pointer, slice or map in it): each works on its
+		// own copy by construction; exercised for completeness, the oracles hold trivially
+		s.SubscribeSlots(func(_ context.Context, slot core.Slot) error {
+			if slot.Slot > 2 {
+				return nil
+			}
+			ref := &core.Slot{Slot: slot.Slot, Time: bn.genesis.Add(time.Duration(slot.Slot) * 12 * time.Second), SlotDuration: 12 * time.Second, SlotsPerEpoch: 32}
+			verifrt.Probe("scheduler-slot-subscriber-called")
+			r.receive(wg, fmt.Sprintf("slot-subscriber%d", si), "slot-sub", &slot, canon(ref), ref)
+			return nil
+		})
+	}
+	// One run in two: the early attestation-data fetch on a beacon "head" event. HandleHeadEvent hands
+	// the stored definition set of the slot's attester duty to the registered fetch-only function,
+	// which (as every receiver in this scenario) may overwrite it in place, before the duty is
+	// triggered for the duty subscribers and while GetDutyDefinition is being queried.
+	// The feature flag is process-global: it is set explicitly in every scheduler run and reset at the end.
+	headEvent := verifrt.Intn("cfg", 2) == 1
+	r.c.Set("head_event", headEvent)
+	if headEvent {
+		featureset.EnableForT(r.c.T, featureset.FetchAttOnBlock)
+	} else {
+		featureset.DisableForT(r.c.T, featureset.FetchAttOnBlock)
+	}
+	defer featureset.DisableForT(r.c.T, featureset.FetchAttOnBlock)
+	if headEvent {
+		s.RegisterFetcherFetchOnly(func(_ context.Context, duty core.Duty, set core.DutyDefinitionSet, _ string, _ eth2p0.Root) error {
+			verifrt.Probe("scheduler-head-event-fetch-only-called")
+			got("fetch-only-function", "head-event", duty, set)
+			return nil
+		})
+		headSlot := uint64(verifrt.Intn("cfg", nv)) // validator i attests in slot i
+		wg.Add(1)
+		verifrt.Go(func() {
+			defer wg.Done()
+			// after the epoch has been resolved (slot 0 tick), before the attester offset (a third of the slot)
+			verifrt.Sleep(time.Duration(headSlot)*12*time.Second + time.Duration(1+verifrt.Intn("w", 3))*time.Second)
+			verifrt.Note("beacon head event for slot %d", headSlot)
+			s.HandleHeadEvent(ctx, eth2p0.Slot(headSlot), simdata.Root(5), "stub")
 		})
 	}
 	verifrt.Go(func() { _ = s.Run() })
